@@ -77,6 +77,9 @@ pub struct TmCfg {
     pub max_events: usize,
     /// Kind::Connect: use the combined (version-sniffing) server
     pub combined: bool,
+    /// this many QoS 1 publishes with gated handlers arrive right after CONNECT (time 0); their completions
+    /// (`Done`) are the only later activity: server-side work must not postpone the peer's keep-alive deadline
+    pub prefill_busy: u8,
 }
 
 pub struct Tm {
@@ -179,7 +182,9 @@ impl Scenario for Tm {
         let cfg = cfg.clone();
         Box::pin(async move {
             let conn = if cfg.combined { start_combined_server(&cfg.ep).await } else { start_endpoint(&cfg.ep, vec![], cfg.kind != Kind::Connect).await };
-            Tm {
+            let prefill = cfg.prefill_busy;
+            let ver = cfg.ep.ver;
+            let mut tm = Tm {
                 traffic_on: cfg.steady.is_some(),
                 completes: if cfg.kind == Kind::Connect { vec![] } else { vec![0] },
                 cfg,
@@ -202,7 +207,14 @@ impl Scenario for Tm {
                 app: std::rc::Rc::new(std::cell::RefCell::new(vec![crate::outbound::SenderSt::default()])),
                 stream: 0,
                 stream_span: None,
+            };
+            for _ in 0..prefill {
+                let pid = tm.next_pid;
+                tm.next_pid += 1;
+                let p = rf::encode(ver, &rf::publish(1, pid, "t", b"b"));
+                tm.deliver(&p, true);
             }
+            tm
         })
     }
 
@@ -418,8 +430,20 @@ impl Scenario for Tm {
                         return Err(Violation::new("fast-frame-timed-out", self.wit(&format!("rate {rate}B/{timeout}s")), format!("frame delivered faster than the configured rate in every period was cut after {}s: {}", slots as f32 / 2.0, self.detail())));
                     }
                 }
-                // ---- idle peers are timed out (only judged while nothing paused the reading side)
-                if end.is_none() && !busy_ever {
+                // ---- idle peers are timed out (only judged while nothing paused the reading side: a v3 server
+                // with max_receive 1 stops reading, and its timers, while a handler is busy)
+                let pausing = self.cfg.ep.ver == Ver::V3 && self.cfg.ep.max_receive == 1;
+                if let (true, Some(e), true) = (ka_stop, end, !pausing || !busy_ever) {
+                    let last = self.completes.iter().filter(|c| **c <= e).max().copied().unwrap_or(0);
+                    if e - last > late(t_impl) && self.cfg.kind == Kind::KeepAlive && self.frame.is_none() {
+                        return Err(Violation::new(
+                            "idle-peer-timed-out-late",
+                            self.wit(&format!("keep-alive {k}s/{t_impl}s{}", if self.cfg.prefill_busy > 0 || busy_ever { " handlers completing" } else { "" })),
+                            format!("keep-alive timeout only {}s after the last complete packet (timeout {t_impl}s): {}", (e - last) as f32 / 2.0, self.detail()),
+                        ));
+                    }
+                }
+                if end.is_none() && (!busy_ever || !pausing) {
                     let last = self.completes.iter().max().copied().unwrap_or(0);
                     let idle = now - last;
                     if ka_on && idle >= late(t_impl) && self.cfg.kind == Kind::KeepAlive {
@@ -565,16 +589,27 @@ pub fn configs(tier: Tier) -> Vec<TmCfg> {
                     ep.handler_auto = false;
                     ep.max_receive = max_receive;
                     let alphabet = if steady.is_some() { vec![StopTraffic, Pkt, Busy, Done] } else { vec![Pkt, Part(3), Rest, Busy, Done] };
-                    v.push(TmCfg { ep, kind: Kind::KeepAlive, steady, horizon: late(t_impl.min(4)) + 6, alphabet, max_events, combined: false });
+                    v.push(TmCfg { ep, kind: Kind::KeepAlive, steady, horizon: late(t_impl.min(4)) + 6, alphabet, max_events, combined: false, prefill_busy: 0 });
                 }
             }
+        }
+        // handlers completing while the peer is silent: three publishes at time 0, their handlers complete at
+        // explorer-chosen times; server-side activity must not postpone the keep-alive deadline
+        for (k, over) in [(2u16, Some(1u16)), (2, None)] {
+            let mut ep = EpCfg::new(ver, Role::Server);
+            ep.client_keepalive = k;
+            ep.hs_keepalive = over;
+            ep.handler_auto = false;
+            ep.max_receive = 16;
+            let (_, t_impl) = ka(&ep);
+            v.push(TmCfg { ep, kind: Kind::KeepAlive, steady: None, horizon: late(t_impl) + 8, alphabet: vec![Done], max_events: 3, combined: false, prefill_busy: 3 });
         }
         // keep-alive 0 and no override: the library's documented 30 s default applies; live traffic must survive it
         {
             let mut ep = EpCfg::new(ver, Role::Server);
             ep.client_keepalive = 0;
             ep.handler_auto = false;
-            v.push(TmCfg { ep, kind: Kind::KeepAlive, steady: Some((20, Frag::Whole)), horizon: 70, alphabet: vec![Pkt], max_events: 1, combined: false });
+            v.push(TmCfg { ep, kind: Kind::KeepAlive, steady: Some((20, Frag::Whole)), horizon: 70, alphabet: vec![Pkt], max_events: 1, combined: false, prefill_busy: 0 });
         }
         // ---- frame read rate: timeout 1 s, overall 3 s, more than 4 bytes per period
         for ka_k in [0u16, 3] {
@@ -583,24 +618,24 @@ pub fn configs(tier: Tier) -> Vec<TmCfg> {
             ep.hs_keepalive = if ka_k == 0 { None } else { Some(8) };
             ep.handler_auto = true;
             ep.frame_read_rate = Some((1, 3, 4));
-            v.push(TmCfg { ep, kind: Kind::ReadRate, steady: None, horizon: 16, alphabet: vec![Part(3), More(1), More(6), Rest, Pkt], max_events: if thorough { 6 } else { 5 }, combined: false });
+            v.push(TmCfg { ep, kind: Kind::ReadRate, steady: None, horizon: 16, alphabet: vec![Part(3), Part(12), More(1), More(6), Rest, Pkt], max_events: if thorough { 6 } else { 5 }, combined: false, prefill_busy: 0 });
         }
         // ---- connect timeout 2 s
         {
             let mut ep = EpCfg::new(ver, Role::Server);
             ep.connect_timeout = 2;
             ep.handler_auto = true;
-            v.push(TmCfg { ep: ep.clone(), kind: Kind::Connect, steady: None, horizon: 12, alphabet: vec![Part(5), More(3), Rest], max_events, combined: false });
+            v.push(TmCfg { ep: ep.clone(), kind: Kind::Connect, steady: None, horizon: 12, alphabet: vec![Part(5), More(3), Rest], max_events, combined: false, prefill_busy: 0 });
             // combined server: protocol-version timeout 2 s, then connect timeout 2 s
             ep.pv_timeout = 2;
-            v.push(TmCfg { ep, kind: Kind::Connect, steady: None, horizon: 18, alphabet: vec![Part(5), More(3), More(6), Rest], max_events, combined: true });
+            v.push(TmCfg { ep, kind: Kind::Connect, steady: None, horizon: 18, alphabet: vec![Part(5), More(3), More(6), Rest], max_events, combined: true, prefill_busy: 0 });
         }
         // ---- client pings
         for k in [0u16, 1, 2, 3] {
             let mut ep = EpCfg::new(ver, Role::Client);
             ep.client_keepalive = k;
             ep.handler_auto = false;
-            v.push(TmCfg { ep, kind: Kind::ClientPing, steady: None, horizon: 14, alphabet: vec![Busy, Done, StreamStart, StreamEnd], max_events: 3, combined: false });
+            v.push(TmCfg { ep, kind: Kind::ClientPing, steady: None, horizon: 14, alphabet: vec![Busy, Done, StreamStart, StreamEnd], max_events: 3, combined: false, prefill_busy: 0 });
         }
     }
     v
